@@ -105,6 +105,16 @@ def expand(job):
                                                                            rnd.randint(-10 ** 6, 10 ** 6)])))
             else:
                 pool.append(gen.rand_point(rnd, m, wide=False, whole=rnd.random() < 0.7))
+        if rnd.random() < 0.3:
+            # the end of a day written both ways in ONE representation and offset: <date>T24:00 and <next date>T00:00 (and a
+            # second later), so that fast paths comparing raw fields of like-written operands meet the 24:00 form
+            x = rnd.choice(pool)
+            n_ = {"cal": lambda r: R.daynum(m, r["y"], r["a"], r["b"]), "ord": lambda r: R.year_start(m, r["y"]) + r["a"] - 1,
+                  "week": lambda r: R.from_week(m, r["y"], r["a"], r["b"])}[x["rep"]](x)
+            rep_ = rnd.choice([x["rep"], "cal", "cal"])
+            for dn, sod_ in ((n_, DAY), (n_ + 1, 0), (n_ + 1, rnd.choice([1, 3600, 86399]))):
+                yy_, a_, b_ = R.date_of(m, rep_, dn)
+                pool.append(tp_rec(rep_, yy_, a_, b_, sod=sod_, zh=x["zh"], zm=x["zm"], xd=2 if (yy_ < 0 or yy_ > 9999) else x.get("xd", 0)))
         rnd.shuffle(pool)
         derive = []
         for _k in range(2):
